@@ -44,7 +44,8 @@ ASSUMPTIONS = ['proof level: full for clamped non-periodic continuous bases — 
                '(C05_elevation_periodic); geometry of periodic curves and of periodic directions of surfaces/volumes proved relative to the '
                'named hypothesis H_sw (certified inverse of the folded periodic Greville collocation matrix exists; exercised exactly by the '
                'model run) and admissible Greville points (C05_geometry_periodic_partial, C05_periodic_direction_partial, '
-               'C05_geometry_periodic_surface_partial); order-1 single-span objects raised by a>=1: C05_geometry_order1',
+               'C05_geometry_periodic_surface_partial); H_sw and admissibility are discharged for uniform periodic quadratics raised to cubics '
+               '(C05_geometry_periodic_uniform_cubic, tol <= h/3); order-1 single-span objects raised by a>=1: C05_geometry_order1',
                'np.linalg.inv / scipy spsolve are modelled by exact inverses (certificate-checked in the model); their '
                'rounding error is bounded by RTOL times the measured condition number of the collocation matrix']
 
